@@ -445,8 +445,31 @@ def main():
   dist = collections.Counter()
   nontrivial = set()
   samples = []
-  for mb, qt, stats, desc, info in cg.gen_cases(rng, n_models):
+  def directed_shared(n):
+    """constants tied across subgraphs x a rule that covers ONE subgraph only
+    (weight-only / dynamic / fp16 / static): the sharers need different
+    representations -> must be rejected or consistent (C15)"""
+    wops = ['FULLY_CONNECTED'] * 5 + ['CONV_2D'] * 2 + ['EMBEDDING_LOOKUP', 'ADD', 'RELU']
+    for _ in range(n):
+      mb, info = gg.gen_model(rng, n_subgraphs=rng.choice([2, 2, 3]), max_ops=rng.choice([2, 3, 4]),
+                              op_weights=wops, force_share=True)
+      j = rng.randrange(info['n_subgraphs'])
+      qt = quantizer.Quantizer(bytearray(mb))
+      cname = rng.choice(['wo8', 'wo8s', 'wo4', 'drq8', 'drq8t', 'fp16', 'a8w8'])
+      alg, cfg = gr.named_configs()[cname]
+      rules = [(f'sig{j}', rng.choice(['*', 'FULLY_CONNECTED']), alg, cname)]
+      desc = gr.apply_rules(qt, rules)
+      if not desc:
+        continue
+      stats = gr.own_stats(mb, gg.random_inputs(mb, rng, 1)) if qt.need_calibration else None
+      yield mb, qt, stats, desc, dict(info, real_stats=True, directed='shared-const')
+
+  import itertools
+  for mb, qt, stats, desc, info in itertools.chain(
+      cg.gen_cases(rng, n_models), directed_shared(400 if tier == 'thorough' else 60)):
     dist['cases'] += 1
+    if info.get('directed'):
+      dist['directed:' + info['directed']] += 1
     try:
       res = qt.quantize(copy.deepcopy(stats))
     except Exception as e:  # pylint: disable=broad-except
